@@ -177,6 +177,38 @@ fn check_image(dir: &std::path::Path, must: &BTreeMap<u64, Vec<Option<Vec<u8>>>>
     None
 }
 
+/// Canonical form of an abstract trace (the same function as `canon` in ocaml/eng_crash.ml):
+/// ids of an `op` token sorted; maximal runs of `mw:<slot>:z` tokens sorted by slot
+/// (retain_regions removes in HashMap order); maximal runs of `pu` tokens sorted by offset
+/// (punch_holes punches the layout holes in parallel).
+fn canon(toks: &[String]) -> Vec<String> {
+    let key = |t: &String| -> u64 { t.split(':').nth(1).and_then(|x| x.parse().ok()).unwrap_or(0) };
+    let is_mwz = |t: &String| t.starts_with("mw:") && t.split(':').count() == 3 && t.ends_with(":z");
+    let is_pu = |t: &String| t.starts_with("pu:");
+    let mut v: Vec<String> = toks.iter().map(|t| {
+        if let Some(body) = t.strip_prefix("op:") {
+            if body.is_empty() { return t.clone(); }
+            let mut ids: Vec<u64> = body.split('+').map(|x| x.parse().unwrap()).collect();
+            ids.sort();
+            format!("op:{}", ids.iter().map(|x| x.to_string()).collect::<Vec<_>>().join("+"))
+        } else { t.clone() }
+    }).collect();
+    for pred in [&is_mwz as &dyn Fn(&String) -> bool, &is_pu as &dyn Fn(&String) -> bool] {
+        let mut i = 0;
+        while i < v.len() {
+            if pred(&v[i]) {
+                let mut j = i;
+                while j < v.len() && pred(&v[j]) { j += 1; }
+                v[i..j].sort_by_key(|t| key(t));
+                i = j;
+            } else {
+                i += 1;
+            }
+        }
+    }
+    v
+}
+
 fn run_case(cid: &str, min_len: u64, ops: Option<Vec<Op>>, mut g: Option<&mut Gen>, nops: u64, img_budget: u64, seed: u64) {
     verif_tap::set_sink(Some(Box::new(sink)));
     {
@@ -430,6 +462,9 @@ fn run_case(cid: &str, min_len: u64, ops: Option<Vec<Op>>, mut g: Option<&mut Ge
     }
     println!("I {cid} open:{min_len} {} | {}", hist.iter().map(|o| o.show()).collect::<Vec<_>>().join(" "), abstract_trace.join(" "));
     println!("O {cid} monitor ok");
+    // model-level tie: the extracted allocator model with the event semantics of
+    // Rawdb/AllocEvents.v must produce the same trace, token for token, in canonical form
+    println!("O {cid} trace {}", canon(&abstract_trace).join(" "));
     for v in &out.viol {
         let p = if v.contains("punch") { "C12" } else { "C05" };
         println!("V {cid} {p}:{v}");
